@@ -206,3 +206,31 @@ Definition exceeds (tbl : list (string * (budget * nat))) (progs : cop Z Z -> pr
         | None => if Nat.leb (snd r) cf then [] else [(n, None)]
         end
     end) probes.
+
+(* ------------------------------------------------------------------ *)
+(* projections: the budgets with every primitive outside P left unconstrained, so that each property depends on the
+   part of the call structure it is about *)
+
+Definition all_toks : list stok :=
+  [TLoad; TStore; TCompute; TLoadAndDelete; TDelete; TClear; TSize; TSnapshot; TNow; TDflt; TWDflt; TCb; TWCb; TFire; TUserFn;
+   TLoadOrStore; TLoadAndStore; TLoadOrCompute; TUnknown; TFireLocked].
+
+Definition relax_budget (P : stok -> bool) (b : budget) : budget :=
+  filter (fun tn => P (fst tn)) b ++ map (fun t => (t, None)) (filter (fun t => negb (P t)) all_toks).
+
+(* keepcf = false: the closures' user-function bound is left unconstrained too *)
+Definition relax (P : stok -> bool) (keepcf : bool) (tbl : list (string * (budget * nat))) : list (string * (budget * nat)) :=
+  map (fun e => let '(n, (b, cf)) := e in (n, (relax_budget P b, if keepcf then cf else 1000%nat))) tbl.
+
+Definition unattained_on (P : stok -> bool) (keepcf : bool) (tbl : list (string * (budget * nat)))
+           (progs : cop Z Z -> prog Z Z (cres Z Z)) : list (string * option stok) :=
+  filter (fun e => match snd e with Some t => P t | None => keepcf end) (unattained tbl progs).
+
+Definition P_map (t : stok) : bool :=
+  match t with
+  | TLoad | TStore | TCompute | TLoadAndDelete | TDelete | TClear | TSize | TSnapshot | TUserFn
+  | TLoadOrStore | TLoadAndStore | TLoadOrCompute | TUnknown => true
+  | _ => false
+  end.
+Definition P_set (t : stok) : bool := match t with TNow | TDflt | TWDflt | TCb | TWCb => true | _ => false end.
+Definition P_cb (t : stok) : bool := match t with TFire | TCb | TWCb | TFireLocked => true | _ => false end.
